@@ -8,7 +8,7 @@ ASSUMPTIONS = []
 EXPLANATION = "inductive step of each Table operation from an arbitrary valid state with an uninterpreted hash function"
 def US(ns, ns2):
     big = max(ns, ns2)
-    words = 11            # Table_Step / 8 with 16-byte elements and the 3-word default header
+    words = 12            # Table_Step / 8 with a 16-byte key, a 24-byte value and the 3-word default header
     L = ["harness.%d:%d" % (i_, 2 * big + 4) for i_ in range(6)] + ["owns.0:26", "elem_live_count.0:26", "Type_Scan.0:24", "Type_Scan.1:24", "strcmp.0:24", "Table_Ideal_Size.0:26",
          "memcpy.0:%d" % (words + 2), "memset.0:%d" % (words + 2), "memmove.0:%d" % (words + 2),
          "words_equal.0:%d" % (ns * words + 2), "snapshot.0:%d" % (ns * words + 2)]
@@ -60,6 +60,8 @@ OBLIGATIONS = (
        T2("rehash.11to5", "OP_REHASH", 11, TH_, ["NS2=5", "HBITS=6"], timeout=7200, mem=24, d=11)]
     + [T2("set.h64.home%d" % h, "OP_SET", 5, TH_, ["HOME=%d" % h, "HFULL"], replace_calls=STUB, timeout=3600, mem=16) for h in range(5)]
 )
+_show = T("show", "OP_SHOW", 5, Q, mem=6, replace_calls=["print_to_with:v_print_rec"]); _show.unwindset = list(_show.unwindset) + ["v_print_rec.0:14"]
+OBLIGATIONS = list(OBLIGATIONS) + [_show]
 LEVEL_TEXT = ("Bounded model checking of the real Table.c: every operation is executed symbolically from an ARBITRARY valid slot layout "
               "(occupancy, keys, values, probe distances, wrap-around, uninterpreted hash function) -- one inductive step per operation and per home slot, "
               "so operation histories of any length are covered for the slot counts explored (1 and 5 quick; 11 thorough), plus the constructor as base case "
